@@ -5,6 +5,9 @@ import (
 	"go/ast"
 	"go/token"
 	"go/types"
+	"os"
+	"path/filepath"
+	"regexp"
 	"sort"
 	"strconv"
 	"strings"
@@ -856,6 +859,157 @@ func runPublishComplete(rc *RuleCtx) {
 				rc.verdict(good, fn, "cache publication", pos, map[bool]string{
 					true:  "no field of the published descriptor is assigned after the publication",
 					false: "a field of the descriptor is assigned AFTER it was published in the cache: a recursive reference compiled in between sees (and copies) the field unset"}[good], true)
+			}
+		}
+	}
+}
+
+// ---------------------------------------------------------------------------------------------
+// CTWINLIT
+// ---------------------------------------------------------------------------------------------
+
+func init() {
+	register(&Rule{
+		Name:     "CTWINLIT",
+		Doc:      "the Go half and the C half of one lookup structure use the same numbers: for the function pairs (caching.ascii2Int / ascii2int, caching.DJBHash32 / hash_DJB32) whose Go side BUILDS the field-name trie / hash map that the native converter (/repo/native/map.c, from which the blob is generated) PROBES, the integer literals of the two bodies are the same multiset. An offset of 254 on the Go side and 255 in C keeps the Go trie self-consistent and makes the native lookup probe another slot: a JSON member whose key has a character below '.' at the discriminating position is dropped as unknown (assumption as for CHDRAGREE: the blob was built from these sources)",
+		Configs:  "N",
+		Floor:    map[string]int{"N": 2},
+		Controls: 1,
+		Run:      runCTwinLit,
+	})
+}
+
+func runCTwinLit(rc *RuleCtx) {
+	src, err := os.ReadFile(filepath.Join(rc.W.Dir, "native", "map.c"))
+	if err != nil {
+		broken("CTWINLIT: cannot read native/map.c: %v", err)
+	}
+	text := regexp.MustCompile(`(?s)/\*.*?\*/`).ReplaceAllString(string(src), "")
+	text = regexp.MustCompile(`//[^\n]*`).ReplaceAllString(text, "")
+	cBody := func(name string) (string, bool) {
+		re := regexp.MustCompile(`\b` + name + `\s*\([^)]*\)\s*\{`)
+		loc := re.FindStringIndex(text)
+		if loc == nil {
+			return "", false
+		}
+		depth, i := 1, loc[1]
+		for ; i < len(text) && depth > 0; i++ {
+			switch text[i] {
+			case '{':
+				depth++
+			case '}':
+				depth--
+			}
+		}
+		return text[loc[1]:i], true
+	}
+	lits := func(s string) []string {
+		var out []string
+		for _, m := range regexp.MustCompile(`\b(\d+)(?:[uUlL]*)\b`).FindAllStringSubmatch(s, -1) {
+			out = append(out, m[1])
+		}
+		sort.Strings(out)
+		return out
+	}
+	pairs := [][2]string{{"ascii2Int", "ascii2int"}, {"DJBHash32", "hash_DJB32"}, {"zzControlAscii2Int", "ascii2int"}}
+	p := rc.W.Pkg("internal/caching")
+	for _, pr := range pairs {
+		var fd *ast.FuncDecl
+		for _, f := range p.Syntax {
+			for _, d := range f.Decls {
+				if x, ok := d.(*ast.FuncDecl); ok && x.Name.Name == pr[0] && x.Recv == nil {
+					fd = x
+				}
+			}
+		}
+		if fd == nil || fd.Body == nil {
+			if strings.HasPrefix(pr[0], "zzControl") {
+				continue
+			}
+			broken("CTWINLIT: Go function internal/caching.%s not found", pr[0])
+		}
+		body, ok := cBody(pr[1])
+		if !ok {
+			broken("CTWINLIT: C function %s not found in native/map.c", pr[1])
+		}
+		var golits []string
+		ast.Inspect(fd.Body, func(n ast.Node) bool {
+			if bl, ok := n.(*ast.BasicLit); ok && bl.Kind == token.INT {
+				if tv, ok := p.TypesInfo.Types[bl]; ok && tv.Value != nil {
+					golits = append(golits, tv.Value.ExactString())
+				}
+			}
+			return true
+		})
+		sort.Strings(golits)
+		clits := lits(body)
+		rc.Examined++
+		good := strings.Join(golits, ",") == strings.Join(clits, ",")
+		rc.add(nil, "internal/caching."+pr[0], "literals vs native "+pr[1], fd.Pos(), map[bool]string{true: "discharged", false: "violated"}[good],
+			map[bool]string{true: fmt.Sprintf("both bodies use %v", golits), false: fmt.Sprintf("the Go body uses %v, the C body %v: what the Go side builds is not what the native side probes", golits, clits)}[good], true)
+	}
+}
+
+// ---------------------------------------------------------------------------------------------
+// INPLACEFILTER
+// ---------------------------------------------------------------------------------------------
+
+func init() {
+	register(&Rule{
+		Name:     "INPLACEFILTER",
+		Doc:      "a result slice that re-uses its input's array (`ret = in[:0]` of a slice parameter) is filled in ONE pass over that input: the function does not read elements of the parameter inside a loop nested in another loop. findFuncs searches `funcs` once per requested method; filtering in place overwrites the entries a later search still has to find (methods requested out of declaration order silently disappear). Expected count zero today; the control keeps the matcher alive",
+		Configs:  "NP",
+		Floor:    map[string]int{"N": 0, "P": 0},
+		Controls: 1,
+		Run:      runInplaceFilter,
+	})
+}
+
+func runInplaceFilter(rc *RuleCtx) {
+	for _, fn := range rc.W.Funcs {
+		if fn.Blocks == nil || strings.HasPrefix(pkgRel(fn), "testdata") {
+			continue
+		}
+		for _, b := range fn.Blocks {
+			for _, ins := range b.Instrs {
+				sl, ok := ins.(*ssa.Slice)
+				if !ok || sl.Low != nil || sl.High == nil {
+					continue
+				}
+				if k, isC := constInt(sl.High); !isC || k != 0 {
+					continue
+				}
+				p, ok := sl.X.(*ssa.Parameter)
+				if !ok {
+					continue
+				}
+				if _, isSlice := p.Type().Underlying().(*types.Slice); !isSlice {
+					continue
+				}
+				rc.Examined++
+				loops := naturalLoops(fn)
+				nested := false
+				for _, inner := range loops {
+					reads := false
+					for lb := range inner.blocks {
+						for _, li := range lb.Instrs {
+							if ia, ok := li.(*ssa.IndexAddr); ok && ia.X == ssa.Value(p) {
+								reads = true
+							}
+						}
+					}
+					if !reads {
+						continue
+					}
+					for _, outer := range loops {
+						if outer != inner && outer.blocks[inner.head] && len(outer.blocks) > len(inner.blocks) {
+							nested = true
+						}
+					}
+				}
+				rc.verdict(!nested, fn, "in-place filter of "+p.Name(), sl.Pos(), map[bool]string{
+					true:  "the input is read in a single pass",
+					false: "the result shares the array of `" + p.Name() + "` while `" + p.Name() + "` is searched again for every iteration of an enclosing loop: appended results overwrite entries that a later search still needs"}[!nested], true)
 			}
 		}
 	}
